@@ -750,7 +750,7 @@ pub fn gen_diff(seed: u64, variant: u64) -> Plan {
 /// C18(b): the exact-map lock-step family on real key types with the library's key builders.
 pub fn gen_c18_typed(seed: u64) -> Plan {
     let mut rng = Rng::new(seed ^ 0x7e9d);
-    let ty = *rng.pick(&["i8", "i16", "i32", "i64", "isize", "u8", "u16", "u32", "u64", "usize", "string", "string", "i32", "i64"]);
+    let ty = *rng.pick(&["i8", "i16", "i32", "i64", "isize", "u8", "u16", "u32", "u64", "usize", "string", "string", "i32", "i64", "boxstr", "arcstr"]);
     let mut p = gen_ttl_family("C18", seed, false);
     let (bits, signed) = match ty {
         "i8" => (8, true),
@@ -762,7 +762,7 @@ pub fn gen_c18_typed(seed: u64) -> Plan {
         "u32" => (32, false),
         _ => (64, false),
     };
-    let pool: Vec<u64> = if ty == "string" {
+    let pool: Vec<u64> = if matches!(ty, "string" | "boxstr" | "arcstr") {
         (1..=24).collect()
     } else if signed {
         let min: i64 = if bits == 64 { i64::MIN } else { -(1i64 << (bits - 1)) };
@@ -1257,7 +1257,7 @@ pub fn gen_plan(prop: &str, seed: u64, variant: u64) -> Plan {
         p.cfg.recipe = ((variant / 3) % 8) as u8;
     }
     // a second cache in the same process (C03/C04/C05/C10 families without tick events)
-    if matches!(prop, "C03" | "C04" | "C05" | "C10") && variant % 9 == 4 && !matches!(p.cfg.keys, KeyMode::Typed { .. }) && !p.has_tag("tick_events") && !p.has_tag("bulk") && !p.has_tag("huge_ttl") {
+    if matches!(prop, "C03" | "C04" | "C05" | "C10" | "C16") && variant % 9 == 4 && !matches!(p.cfg.keys, KeyMode::Typed { .. }) && !p.has_tag("tick_events") && !p.has_tag("bulk") && !p.has_tag("huge_ttl") {
         p.cfg.decoy = true;
         p.tags.push("decoy_cache".into());
     }
